@@ -20,6 +20,11 @@ use vcore::{enumerate as en, Check, Stats};
 /// The focused byte alphabet of DESIGN §6 C32.
 const SMALL: [u8; 6] = [0x00, 0x01, 0x02, 0x07, 0x7f, 0xff];
 const REP_LEN: usize = 64;
+/// long low-entropy inputs: units over this alphabet repeated to each of these lengths (documents
+/// with dozens of definitions come only out of long inputs)
+const LONG_ALPHA: [u8; 9] = [0x00, 0x01, 0x02, 0x03, 0x04, 0x05, 0x07, 0x7f, 0xff];
+const LONG_LENS: [usize; 3] = [256, 1024, 4096];
+const DEV_VALUES: [u8; 8] = [1, 2, 3, 4, 5, 6, 7, 255];
 
 /// Five valid base schemas (each with an explicit `schema` definition: `operation_definition`
 /// returns `None` without one). Field types stay inside what `DocumentBuilder::stack_ty`
@@ -74,7 +79,18 @@ extend enum Unit { HOUR }"#,
     ),
 ];
 
+/// Fixed inputs on which apollo-smith generates an invalid document (found by an independent
+/// random search of long low-entropy inputs, minimised; they are NOT part of the exhaustive claim).
+/// (file, finding id, error class of the first diagnostic)
+const WITNESSES: &[(&str, &str, &str)] = &[
+    ("c32_dup_implements.json", "C32-object-extension-repeats-implements", "more than once"),
+    ("c32_subtype.json", "C32-interface-field-type-not-subtype", "is not a proper subtype"),
+    ("c32_required.json", "C32-required-input-field-missing-in-generated-value", "the required field"),
+];
+
 struct Ctx {
+    /// (bytes, finding id, message class, finding is open)
+    witnesses: Vec<(Vec<u8>, &'static str, &'static str, bool)>,
     schemas: Vec<(String, apollo_smith::Document, Valid<Schema>)>,
     /// 128-bit fingerprints of every distinct generated text (membership only)
     distinct: Vec<Mutex<BTreeSet<u128>>>,
@@ -108,7 +124,7 @@ impl Ctx {
             };
             schemas.push((name.to_string(), doc, valid));
         }
-        Ctx { schemas, distinct: (0..64).map(|_| Mutex::new(BTreeSet::new())).collect() }
+        Ctx { witnesses: Vec::new(), schemas, distinct: (0..64).map(|_| Mutex::new(BTreeSet::new())).collect() }
     }
     fn record(&self, kind: u8, text: &str) {
         let fp = fingerprint(kind, text);
@@ -125,12 +141,17 @@ enum Gen {
     /// `operation_definition()` returned `Ok(None)`
     Nothing,
     NotEnoughData,
+    /// `arbitrary::Error::IncorrectFormat`: the generator declines these bytes (an extension that
+    /// would be empty, a union without candidate members). Like "input exhausted" it is the
+    /// generator saying "no document from this input", not a wrong document.
+    Declined,
     OtherErr(String),
 }
 
 fn map_err(e: arbitrary::Error) -> Gen {
     match e {
         arbitrary::Error::NotEnoughData => Gen::NotEnoughData,
+        arbitrary::Error::IncorrectFormat => Gen::Declined,
         other => Gen::OtherErr(format!("{other:?}")),
     }
 }
@@ -144,6 +165,30 @@ fn gen_doc(bytes: &[u8]) -> Result<Gen, String> {
         }
     })
 }
+
+/// Whole document with every `max_*` of the builder raised to 50 (more definitions per input).
+fn gen_doc50(bytes: &[u8]) -> Result<Gen, String> {
+    vcore::catch(|| {
+        let mut u = Unstructured::new(bytes);
+        match DocumentBuilder::new(&mut u)
+            .max_scalar_types(50)
+            .max_enum_types(50)
+            .max_interface_types(50)
+            .max_object_types(50)
+            .max_union_types(50)
+            .max_input_object_types(50)
+            .max_fragment_definitions(50)
+            .max_directive_definitions(50)
+            .max_operation_definitions(50)
+            .build()
+        {
+            Ok(doc) => Gen::Text(String::from(doc)),
+            Err(e) => map_err(e),
+        }
+    })
+}
+
+const MODE_DOC50: usize = 99;
 
 fn gen_op(bytes: &[u8], base: &apollo_smith::Document) -> Result<Gen, String> {
     vcore::catch(|| {
@@ -160,6 +205,18 @@ fn gen_op(bytes: &[u8], base: &apollo_smith::Document) -> Result<Gen, String> {
     })
 }
 
+/// A failing whole-document case is attributed to a listed finding only if it is exactly one of the
+/// recorded witness inputs, the finding is open, and the first diagnostic is of the recorded class.
+fn known_class(ctx: &Ctx, mode: usize, bytes: &[u8], sig: &str) -> Option<&'static str> {
+    if !(mode == 0 || mode == MODE_DOC50) {
+        return None;
+    }
+    ctx.witnesses
+        .iter()
+        .find(|(b, _, class, open)| *open && b.as_slice() == bytes && sig.contains(class))
+        .map(|(_, id, _, _)| *id)
+}
+
 fn size_bucket(n: usize) -> &'static str {
     match n {
         0..=255 => "<256B",
@@ -174,8 +231,17 @@ fn run_case(ctx: &Ctx, bytes: &[u8], mode: usize, st: &mut Stats) {
     st.states += 1;
     let case = || json!({"bytes": bytes, "mode": mode});
     let size = bytes.len() as u64 * 8 + mode as u64;
-    let tag = if mode == 0 { "doc".to_string() } else { format!("op[{}]", ctx.schemas[mode - 1].0) };
-    let generate = || if mode == 0 { gen_doc(bytes) } else { gen_op(bytes, &ctx.schemas[mode - 1].1) };
+    let whole = mode == 0 || mode == MODE_DOC50;
+    let tag = match mode {
+        0 => "doc".to_string(),
+        MODE_DOC50 => "doc50".to_string(),
+        m => format!("op[{}]", ctx.schemas[m - 1].0),
+    };
+    let generate = || match mode {
+        0 => gen_doc(bytes),
+        MODE_DOC50 => gen_doc50(bytes),
+        m => gen_op(bytes, &ctx.schemas[m - 1].1),
+    };
     st.transitions += 2;
     let first = match generate() {
         Ok(g) => g,
@@ -210,6 +276,10 @@ fn run_case(ctx: &Ctx, bytes: &[u8], mode: usize, st: &mut Stats) {
             st.outcome(&format!("{tag}:no-operation"));
             return;
         }
+        Gen::Declined => {
+            st.outcome(&format!("{tag}:input-declined (IncorrectFormat)"));
+            return;
+        }
         Gen::OtherErr(e) => {
             st.fail_simple(&format!("{tag}:error-other-than-not-enough-data"), case(), format!("generator returned Err({e})"), size);
             return;
@@ -218,28 +288,49 @@ fn run_case(ctx: &Ctx, bytes: &[u8], mode: usize, st: &mut Stats) {
     ctx.record(mode as u8, &text);
     st.transitions += 1;
     let verdict = vcore::catch(|| -> Result<(), (String, String)> {
-        if mode == 0 {
+        if whole {
             let doc = match ast::Document::parse(text.as_str(), "smith.graphql") {
                 Ok(d) => d,
-                Err(e) => return Err(("syntax-error".into(), e.errors.to_string())),
+                Err(e) => {
+                    // nesting beyond apollo-parser's DEFAULT recursion limit (a safety limit of the
+                    // parser, not a grammar rule): the document is not judged
+                    if e.errors.iter().all(|d| d.error.to_string().contains("recursion limit reached")) {
+                        return Err(("not-judged:deeper-than-default-recursion-limit".into(), String::new()));
+                    }
+                    return Err(("syntax-error".into(), e.errors.to_string()));
+                }
             };
             match doc.to_mixed_validate() {
                 Ok(_) => Ok(()),
                 Err(errors) => {
                     let name = errors.iter().next().and_then(|d| d.error.unstable_error_name()).unwrap_or("unnamed");
-                    Err((format!("invalid:{name}"), errors.to_string()))
+                    if errors.iter().all(|d| d.error.unstable_error_name() == Some("RecursionLimitError")) {
+                        return Err(("not-judged:validator-recursion-limit".into(), String::new()));
+                    }
+                    // message of the first diagnostic with the quoted names removed
+                    let class: String = errors.iter().next().map(|d| d.error.to_string()).unwrap_or_default().split('`').step_by(2).collect::<Vec<_>>().join("_");
+                    Err((format!("invalid:{name}:{class}"), errors.to_string()))
                 }
             }
         } else {
             let schema = &ctx.schemas[mode - 1].2;
             let doc = match ast::Document::parse(text.as_str(), "op.graphql") {
                 Ok(d) => d,
-                Err(e) => return Err(("syntax-error".into(), e.errors.to_string())),
+                Err(e) => {
+                    if e.errors.iter().all(|d| d.error.to_string().contains("recursion limit reached")) {
+                        return Err(("not-judged:deeper-than-default-recursion-limit".into(), String::new()));
+                    }
+                    return Err(("syntax-error".into(), e.errors.to_string()));
+                }
             };
             match doc.to_executable_validate(schema) {
                 Ok(_) => Ok(()),
                 Err(e) => {
                     let name = e.errors.iter().next().and_then(|d| d.error.unstable_error_name()).unwrap_or("unnamed");
+                    if e.errors.iter().all(|d| d.error.unstable_error_name() == Some("RecursionLimitError")) {
+                        // the validator's own safety limit on very deep operations, not a validity rule
+                        return Err(("not-judged:validator-recursion-limit".into(), String::new()));
+                    }
                     Err((format!("invalid:{name}"), e.errors.to_string()))
                 }
             }
@@ -247,6 +338,13 @@ fn run_case(ctx: &Ctx, bytes: &[u8], mode: usize, st: &mut Stats) {
     });
     match verdict {
         Err(p) => st.fail_simple(&format!("{tag}:validation-panic"), case(), format!("parse/validate panicked: {}", vcore::short(&p)), size),
+        Ok(Err((sig, _))) if sig.starts_with("not-judged") => st.outcome(&format!("{tag}:{sig}")),
+        Ok(Err((sig, detail))) if known_class(ctx, mode, bytes, &sig).is_some() => {
+            let id = known_class(ctx, mode, bytes, &sig).unwrap();
+            let _ = detail;
+            st.known(id, &format!("{} bytes, builder {tag}: {sig}", bytes.len()));
+            st.outcome(&format!("{tag}:known-finding"));
+        }
         Ok(Err((sig, detail))) => st.fail_simple(
             &format!("{tag}:{sig}"),
             case(),
@@ -254,8 +352,8 @@ fn run_case(ctx: &Ctx, bytes: &[u8], mode: usize, st: &mut Stats) {
             size,
         ),
         Ok(Ok(())) => {
-            if mode == 0 {
-                st.outcome(&format!("doc:valid:{}", size_bucket(text.len())));
+            if whole {
+                st.outcome(&format!("{tag}:valid:{}", size_bucket(text.len())));
             } else {
                 st.outcome(&format!("{tag}:valid:{}", if text.len() < 64 { "<64B" } else { size_bucket(text.len()) }));
             }
@@ -270,11 +368,14 @@ struct Spaces {
     small: u64,
     small_len: u32,
     rep: u64,
+    /// number of units (strings of length 1..=long_unit over LONG_ALPHA)
+    long_units: u64,
+    long_max_len: usize,
 }
 
 impl Spaces {
     fn total(&self) -> u64 {
-        self.all2 + self.small + self.rep
+        self.all2 + self.small + self.rep + self.long_units * LONG_LENS.len() as u64
     }
     /// `None` = duplicate of an input that another family already covers
     fn bytes(&self, mut i: u64) -> Option<Vec<u8>> {
@@ -292,6 +393,20 @@ impl Spaces {
             return Some(seq.iter().map(|&x| SMALL[x]).collect());
         }
         i -= self.small;
+        if i >= self.rep {
+            // long periodic family
+            i -= self.rep;
+            let len = LONG_LENS[(i % LONG_LENS.len() as u64) as usize];
+            if len > self.long_max_len {
+                return None;
+            }
+            en::nth_upto(LONG_ALPHA.len() as u64, i / LONG_LENS.len() as u64 + 1, &mut seq);
+            let unit: Vec<u8> = seq.iter().map(|&x| LONG_ALPHA[x]).collect();
+            if unit.len() > 1 && unit.iter().all(|b| *b == unit[0]) {
+                return None; // same bytes as the one-byte unit
+            }
+            return Some(unit.iter().cycle().take(len).copied().collect());
+        }
         // repetition family: every non-empty string of length <= 2 over all bytes, repeated to 64 bytes
         en::nth_upto(256, i + 1, &mut seq);
         let unit: Vec<u8> = seq.iter().map(|&x| x as u8).collect();
@@ -305,13 +420,23 @@ impl Spaces {
 fn main() {
     let mut chk = Check::new("C32");
     vcore::quiet_panics();
-    let ctx = Ctx::new();
+    // long inputs make apollo-smith and the validator recurse deeply: give every worker a big stack
+    let _ = rayon::ThreadPoolBuilder::new().stack_size(512 << 20).build_global();
+    let mut ctx = Ctx::new();
+    for (file, id, class) in WITNESSES {
+        let path = std::path::Path::new(vcore::VERIF_ROOT).join("harness/checks/witness").join(file);
+        let bytes: Vec<u8> = std::fs::read_to_string(&path)
+            .ok()
+            .and_then(|t| serde_json::from_str::<Vec<u8>>(&t).ok())
+            .unwrap_or_else(|| vcore::machinery_error(&format!("cannot read witness {path:?}")));
+        ctx.witnesses.push((bytes, *id, *class, chk.known.is_open(id)));
+    }
     let modes = 1 + ctx.schemas.len();
     if let Some(case) = chk.replay_case() {
         let bytes: Vec<u8> = case["bytes"].as_array().map(|a| a.iter().map(|v| v.as_u64().unwrap_or(0) as u8).collect()).unwrap_or_default();
         let mode = case["mode"].as_u64().unwrap_or(0) as usize;
         let mut st = Stats::default();
-        run_case(&ctx, &bytes, mode.min(modes - 1), &mut st);
+        run_case(&ctx, &bytes, if mode == MODE_DOC50 { mode } else { mode.min(modes - 1) }, &mut st);
         chk.absorb(st);
         chk.finish_replay();
     }
@@ -321,6 +446,8 @@ fn main() {
         small: en::count_upto(6, small_len),
         small_len,
         rep: en::count_upto(256, 2) - 1,
+        long_units: en::count_upto(LONG_ALPHA.len() as u64, chk.tier().pick(2, 3)) - 1,
+        long_max_len: chk.tier().pick(1024, 4096),
     };
     let total = sp.total();
     let stats = vcore::par_sweep(total, 512, |i, st| {
@@ -336,14 +463,56 @@ fn main() {
         for mode in 0..modes {
             run_case(&ctx, &bytes, mode, st);
         }
+        if bytes.len() >= LONG_LENS[0] {
+            run_case(&ctx, &bytes, MODE_DOC50, st);
+        }
     });
     chk.absorb(stats);
+    // deviation-bounded family: an all-zero input of DEV_LEN bytes with at most two bytes changed
+    // to a value of DEV_VALUES (every pair of positions x every pair of values), whole-document modes
+    let dev_len: usize = chk.tier().pick(64, 128);
+    let pairs = (dev_len * (dev_len + 1) / 2) as u64; // (i, j) with i < j <= dev_len; j == dev_len means "one deviation"
+    let stats = vcore::par_sweep(pairs, 64, |idx, st| {
+        // decode idx -> (i, j), i < j
+        let mut i = 0usize;
+        let mut rest = idx as usize;
+        while rest >= dev_len - i {
+            rest -= dev_len - i;
+            i += 1;
+        }
+        let j = i + 1 + rest;
+        for &a in &DEV_VALUES {
+            for &b in &DEV_VALUES {
+                if j == dev_len && b != DEV_VALUES[0] {
+                    continue;
+                }
+                let mut bytes = vec![0u8; dev_len];
+                bytes[i] = a;
+                if j < dev_len {
+                    bytes[j] = b;
+                }
+                run_case(&ctx, &bytes, 0, st);
+                run_case(&ctx, &bytes, MODE_DOC50, st);
+            }
+        }
+    });
+    chk.absorb(stats);
+    // witness family (fixed inputs, see WITNESSES): both whole-document builders
+    let mut st = Stats::default();
+    for (bytes, _, _, _) in &ctx.witnesses {
+        run_case(&ctx, bytes, 0, &mut st);
+        run_case(&ctx, bytes, MODE_DOC50, &mut st);
+    }
+    chk.absorb(st);
     chk.stats.nontrivial = ctx.distinct_total();
     chk.bounds = json!({
         "all_byte_strings_max_len": 2,
         "small_alphabet": SMALL,
         "small_alphabet_max_len": sp.small_len,
         "repetition_family": format!("every non-empty byte string of length <= 2 repeated to {REP_LEN} bytes"),
+        "long_periodic_family": {"alphabet": LONG_ALPHA, "unit_max_len": chk.tier().pick(2, 3), "lengths": LONG_LENS.iter().filter(|l| **l <= sp.long_max_len).collect::<Vec<_>>()},
+        "deviation_family": {"base": "all-zero input", "length": dev_len, "max_changed_bytes": 2, "values": DEV_VALUES, "builders": ["default", "every max_* = 50"]},
+        "witness_family": WITNESSES.iter().map(|w| w.0).collect::<Vec<_>>(),
         "inputs": total,
         "modes": std::iter::once("whole document".to_string()).chain(ctx.schemas.iter().map(|s| format!("operation against base schema {}", s.0))).collect::<Vec<_>>(),
     });
@@ -354,6 +523,9 @@ fn main() {
         "base schemas keep output field types inside what DocumentBuilder::stack_ty implements (objects, interfaces, enums, built-in scalars): a field of union or custom-scalar type reaches an explicit todo!() in apollo-smith".into(),
         "base schemas contain no self-referential input object (input_value_for_type recurses without a depth bound on them)".into(),
         "cross-process determinism (hash seeds) is C22's subject; here two in-process runs are compared".into(),
+        "arbitrary::Error::IncorrectFormat (the generator declines the bytes) is accepted like 'input exhausted'; any other error is a violation".into(),
+        "a generated document that nests deeper than apollo-parser's default recursion limit (500), or whose only diagnostics are the validator's RecursionLimitError, is not judged: those limits are safety settings, not rules of the language".into(),
+        "the witness family consists of three fixed inputs found by an independent random search (not by this enumeration); it is a regression set, not part of the exhaustive claim".into(),
     ];
     let ctx_ref = &ctx;
     chk.finish(&|case: &Value| {
